@@ -13,7 +13,11 @@
     well-founded measure, so every run is finite and — with `progress` — ends
     in the final state), and, on the refinement `Model.SchedDW` that adds
     `next_task`, the mutex holder and the workers' condition-variable states,
-    `no_lost_wakeup`.
+    `no_lost_wakeup`, `deadlock_free_w` (every reachable non-final refined state
+    has an enabled transition that is not a spurious wake-up) and
+    `measure_decreases_w` / `terminates_w` / `terminates_w_ns` /
+    `maximal_run_final_w` (only spurious wake-ups can keep a run going; a run
+    that cannot continue otherwise is final with all workers exited).
 -/
 import LbzVerif.Lemmas.SchedD.Safe3
 import LbzVerif.Lemmas.SchedD.Attach
@@ -27,6 +31,7 @@ import LbzVerif.Lemmas.SchedD.UnordCap2
 import LbzVerif.Lemmas.SchedD.ProgressFinal
 import LbzVerif.Lemmas.SchedD.Measure2
 import LbzVerif.Lemmas.SchedD.Wake2
+import LbzVerif.Lemmas.SchedD.WakeLive2
 import LbzVerif.Lemmas.SchedD.Witness
 
 namespace LbzVerif.Props.C11.Expand
@@ -310,5 +315,116 @@ example : (∃ w, ReachW wakeCfg w ∧ w.holder = none ∧ w.nextTask.isSome = t
   · obtain ⟨w, hr, hp⟩ := reachW_of_any wake_witness_exit
     simp only [Bool.and_eq_true, decide_eq_true_eq] at hp
     exact ⟨w, hr, by rw [hp.1]; simp⟩
+
+/-! ### deadlock freedom and termination of the refined model -/
+
+open LbzVerif.Model.SchedDW in
+/-- **deadlock_free_w**.  On `Model.SchedDW` (threads, `sched_mutex`, `next_task`,
+    `xwait`/`xsignal`/`xbroadcast`, spurious wake-ups): every reachable refined
+    state that is not final — `finalW c w` = `failf` was called, or the scheduler
+    data are terminated AND every worker thread has left its loop — has an
+    enabled transition that is not a spurious wake-up.  Hypotheses exactly as
+    for `progress`.  Combines `progress` (some task section / I/O step is
+    enabled in the base model), `no_lost_wakeup` (when `next_task != NULL` or
+    `finished()`, a worker is runnable or nobody waits; with the mutex free,
+    `next_task` is `select_task()` of the current data) and `inloop_free` (the
+    worker at the top of the loop can start the selected task).  So the C
+    program cannot hang with all workers in `xwait` while work is left or the
+    exit broadcast is due — for any schedule, no fairness assumption. -/
+theorem deadlock_free_w {c : Cfg} (hW : 0 < c.W) (hn : 1 ≤ c.n) (ho : EMIT_THRESH < c.totalOut)
+    (hti : 1 ≤ c.totalIn) {w : WState} (h : ReachW c w) (hnf : finalW c w = false) :
+    ∃ l, WLabel.isSpurious l = false ∧ (stepW c w l).isSome = true :=
+  LbzVerif.Lemmas.SchedD.deadlock_free_w hW hn ho hti h hnf
+
+open LbzVerif.Model.SchedDW in
+/-- non-vacuity: the hypotheses hold for the two-worker configuration `wakeCfg`;
+    a reachable non-final state with worker 1 still in `xwait` (worker 0 was
+    woken by the reader's signal) has an enabled non-spurious transition -/
+example : ∃ w, ReachW wakeCfg w ∧ WPh.waiting ∈ w.ws ∧ finalW wakeCfg w = false ∧
+    ∃ l, WLabel.isSpurious l = false ∧ (stepW wakeCfg w l).isSome = true := by
+  obtain ⟨w, hr, hp⟩ := reachW_of_any wake_witness_live
+  simp only [Bool.and_eq_true, Bool.not_eq_true', decide_eq_true_eq] at hp
+  obtain ⟨hnf, h3⟩ := hp
+  exact ⟨w, hr, by rw [h3]; simp, hnf,
+    deadlock_free_w (by decide) (by decide) (by decide) (by decide) hr hnf⟩
+
+open LbzVerif.Model.SchedDW in
+/-- the measure of the refined model: the base measure `mu`, then the number of
+    worker threads that have not exited, then the steps an idle worker still
+    takes on its own (`ready` 2, `inloop` 1).  It decreases (`muLtW`,
+    well-founded: `muLtW_wf`) along every transition of a reachable refined
+    state except a spurious wake-up, which costs exactly 2 units of the last
+    component and nothing else (`spurious_cost_w`). -/
+theorem measure_decreases_w {c : Cfg} (hW : 0 < c.W) {w w' : WState} {l : WLabel}
+    (h : ReachW c w) (hl : WLabel.isSpurious l = false) (hs : stepW c w l = some w') :
+    muLtW (muW c w') (muW c w) :=
+  stepW_measure hW h hl hs
+
+open LbzVerif.Model.SchedDW in
+/-- **terminates_w**: in every infinite run of the refined model, from any
+    reachable state and for any schedule, the steps that are not spurious
+    wake-ups run out again and again: after every index `N` there is an
+    `i ≥ N` whose label is a spurious wake-up (the same form as on the
+    compression side, `Props.C11.Compress.terminates`).  In particular there is
+    no infinite run without spurious wake-ups (`terminates_w_ns`), so every
+    maximal run in which the environment eventually stops waking waiters
+    spuriously is finite, and it ends in the final state with all workers
+    exited (`maximal_run_final_w`).  (Literally "finitely many non-spurious
+    steps" would be false: each spurious wake-up is answered by the woken
+    worker re-taking the mutex and calling `xwait` again — two non-spurious
+    steps, which is exactly what `spurious_cost_w` accounts for.) -/
+theorem terminates_w {c : Cfg} (hW : 0 < c.W) (f : Nat → WState) (ℓ : Nat → WLabel)
+    (h0 : ReachW c (f 0)) (hstep : ∀ i, stepW c (f i) (ℓ i) = some (f (i + 1))) :
+    ∀ N, ∃ i, N ≤ i ∧ WLabel.isSpurious (ℓ i) = true :=
+  LbzVerif.Lemmas.SchedD.terminates_w hW f ℓ h0 hstep
+
+open LbzVerif.Model.SchedDW in
+/-- no infinite run without spurious wake-ups -/
+theorem terminates_w_ns {c : Cfg} (hW : 0 < c.W) (f : Nat → WState) (ℓ : Nat → WLabel)
+    (h0 : ReachW c (f 0)) :
+    ¬ ∀ i, WLabel.isSpurious (ℓ i) = false ∧ stepW c (f i) (ℓ i) = some (f (i + 1)) :=
+  LbzVerif.Lemmas.SchedD.terminates_w_ns hW f ℓ h0
+
+open LbzVerif.Model.SchedDW in
+/-- … and a run that ends in a state with no enabled non-spurious transition
+    has ended in the final state: `failf` was called, or the scheduler data are
+    terminated (then `output_eq` applies) and every worker thread has exited. -/
+theorem maximal_run_final_w {c : Cfg} (hW : 0 < c.W) (hn : 1 ≤ c.n) (ho : EMIT_THRESH < c.totalOut)
+    (hti : 1 ≤ c.totalIn) {w : WState} (h : ReachW c w)
+    (hmax : ∀ l, WLabel.isSpurious l = false → stepW c w l = none) :
+    w.base.failed = true ∨ (terminated c w.base = true ∧ ∀ p ∈ w.ws, p = .exited) :=
+  maximal_final_w hW hn ho hti h hmax
+
+open LbzVerif.Model.SchedDW in
+/-- non-vacuity: in `wakeCfg` a first step strictly decreases the measure, a
+    spurious wake-up is enabled in a reachable state (and adds 2 to the last
+    component only), and the run `wakeTrace2` reaches the final state with both
+    workers exited -/
+example : (∃ w', stepW wakeCfg (initW wakeCfg) (.acquire 0) = some w' ∧
+      muLtW (muW wakeCfg w') (muW wakeCfg (initW wakeCfg))) ∧
+    (∃ w w', ReachW wakeCfg w ∧ stepW wakeCfg w (.spurious 0) = some w' ∧
+      w'.base = w.base ∧ live w' = live w ∧ phW w' = phW w + 2) ∧
+    (∃ w, ReachW wakeCfg w ∧ finalW wakeCfg w = true ∧ w.base.failed = false ∧
+      ∀ p ∈ w.ws, p = WPh.exited) := by
+  refine ⟨?_, ?_, ?_⟩
+  · cases h : stepW wakeCfg (initW wakeCfg) (.acquire 0) with
+    | none => exact absurd h (by decide +kernel)
+    | some w' => exact ⟨w', rfl, measure_decreases_w (by decide) .init rfl h⟩
+  · cases h : runW wakeCfg (initW wakeCfg) [.acquire 0, .wait 0] with
+    | none => exact absurd h (by decide +kernel)
+    | some w =>
+      have hr := reachW_run _ .init h
+      cases h2 : stepW wakeCfg w (.spurious 0) with
+      | none =>
+        have hx : ((runW wakeCfg (initW wakeCfg) [.acquire 0, .wait 0]).bind
+            (fun w => stepW wakeCfg w (.spurious 0))).isSome = true := by decide +kernel
+        rw [h] at hx; simp only [Option.bind_some] at hx; rw [h2] at hx; cases hx
+      | some w' => exact ⟨w, w', hr, h2, spurious_cost_w h2⟩
+  · have hw : (runW wakeCfg (initW wakeCfg) wakeTrace2).any
+        (fun w => finalW wakeCfg w && !w.base.failed && w.ws.all (· == .exited)) = true := by
+      decide +kernel
+    obtain ⟨w, hr, hp⟩ := reachW_of_any hw
+    simp only [Bool.and_eq_true, Bool.not_eq_true', List.all_eq_true, beq_iff_eq] at hp
+    exact ⟨w, hr, hp.1.1, hp.1.2, hp.2⟩
 
 end LbzVerif.Props.C11.Expand
